@@ -161,6 +161,36 @@ func localShapeB() shape {
 
 func init() { shapes = append(shapes, localShapeA(), localShapeB()) }
 
+// Envelope names itself by value: one Go type, several event type names.
+type Envelope struct {
+	ID   int    `json:"id"`
+	Kind string `json:"kind"`
+}
+
+func (e Envelope) EventTypeName() string { return "c15.envelope." + e.Kind }
+
+// checkEnvelopes publishes events of one Go type under varying names and
+// requires each record to carry the name EventType reports for that value.
+func checkEnvelopes(o *vkit.Outcome, bus *eventbus.EventBus, store eventbus.EventStore, kinds []string) {
+	ctx := context.Background()
+	before, _, _ := store.Read(ctx, eventbus.OffsetOldest, 0)
+	for i, k := range kinds {
+		eventbus.Publish(bus, Envelope{ID: 9000 + i, Kind: k})
+	}
+	all, _, err := store.Read(ctx, eventbus.OffsetOldest, 0)
+	if err != nil || len(all) != len(before)+len(kinds) {
+		o.Failf("", "publishing %d value-named events added %d records (err %v)", len(kinds), len(all)-len(before), err)
+		return
+	}
+	for i, k := range kinds {
+		want := eventbus.EventType(Envelope{Kind: k})
+		if got := all[len(before)+i].Type; got != want {
+			o.Failf("", "a TypeNamer whose name depends on the value: event %d of kinds %v was stored under %q, EventType reports %q", i, kinds, got, want)
+			return
+		}
+	}
+}
+
 var apis = []string{"persist", "subscribe-replay", "upcast-source", "upcast-target", "replay-eventtype"}
 
 // Case: one shape through one API, with generated values around it.
@@ -305,6 +335,14 @@ func Run(c *Case) *vkit.Outcome {
 		if fmt.Sprint(got) != fmt.Sprint(want) {
 			o.Failf("", "%s: a chain UpSource -> T does not reach SubscribeWithReplay[T]: delivered %v, expected %v", desc, got, want)
 		}
+	}
+	if len(o.Viol) == 0 {
+		kinds := []string{"a", "b", "a", "c"}
+		if len(c.Strings) > 0 {
+			kinds = append(kinds, c.Strings...)
+		}
+		checkEnvelopes(o, bus, store, kinds)
+		checkEnvelopes(o, bus2, store, kinds[1:])
 	}
 	if sh.custom && (c.API == "subscribe-replay" || c.API == "upcast-source" || c.API == "upcast-target") && len(c.IDs) > 0 {
 		o.Nontrivial = true
